@@ -214,16 +214,17 @@ type c19Server struct {
 	post   time.Duration // delay after the clock is read
 	peers  []string
 	leader string
+	state  string
 }
 
 func c19NewServer(offset, pre, post time.Duration) *c19Server {
-	p := &c19Server{offset: offset, pre: pre, post: post}
+	p := &c19Server{offset: offset, pre: pre, post: post, state: "Follower"}
 	p.srv = httptest.NewTLSServer(http.HandlerFunc(func(w http.ResponseWriter, r *http.Request) {
 		time.Sleep(p.pre)
 		now := time.Now().Add(p.offset)
 		time.Sleep(p.post)
 		w.Header().Set("Content-Type", "application/json")
-		json.NewEncoder(w).Encode(health.ServerStatus{State: "Follower", CurrentTime: now, Peers: p.peers, Leader: p.leader})
+		json.NewEncoder(w).Encode(health.ServerStatus{State: p.state, CurrentTime: now, Peers: p.peers, Leader: p.leader})
 	}))
 	return p
 }
@@ -272,6 +273,8 @@ func TestVerifC19Real(t *testing.T) {
 				off = offsets[rng.Intn(3)] // mostly healthy networks
 			}
 			p := c19NewServer(off, time.Duration(rng.Intn(60))*time.Millisecond, time.Duration(rng.Intn(60))*time.Millisecond)
+			// a peer answers whatever raft state it is in (a network without quorum consists of candidates)
+			p.state = []string{"Follower", "Follower", "Leader", "Candidate", "Shutdown", ""}[rng.Intn(6)]
 			peers = append(peers, p)
 			pemBytes = append(pemBytes, pem.EncodeToMemory(&pem.Block{Type: "CERTIFICATE", Bytes: p.srv.Certificate().Raw})...)
 			a := off
